@@ -107,8 +107,9 @@ def _value_case(p: dict) -> list[dict]:
     out = []
     for name in SHIPPED:
         exp = term_value(p["vals"][name])
-        forms = {"series": (pd.Series(a), pd.Series(b)),
-                 "frame": (pd.DataFrame({"x": a}), pd.DataFrame({"x": b}))}
+        forms = {"series": (pd.Series(a), pd.Series(b))}
+        if p.get("frames", True):
+            forms["frame"] = (pd.DataFrame({"x": a}), pd.DataFrame({"x": b}))
         for form, (sa, sb) in forms.items():
             with np.errstate(all="ignore"):
                 try:
@@ -136,6 +137,8 @@ def loss_values(ctx: Ctx, rep: Report) -> None:
         cases += res.payloads
     if len(cases) < 2000:
         raise MachineryError(f"only {len(cases)} loss value cases emitted")
+    for j, c in enumerate(cases):
+        c["frames"] = (not ctx.quick) or j % 4 == 0       # quick: the one-column-frame form for every fourth pair
     results = pmap(_value_case, cases, chunk=128)
     undefined = 0
     for p, rs in zip(cases, results):
@@ -191,8 +194,8 @@ def law_counterexamples(ctx: Ctx, rep: Report) -> None:
     if not cexs:
         raise MachineryError("no law counterexamples emitted for mean / cosine_similarity")
     rnd = random.Random(ctx.seed)
-    if ctx.quick and len(cexs) > 1200:
-        cexs = rnd.sample(cexs, 1200)
+    if ctx.quick and len(cexs) > 500:
+        cexs = rnd.sample(cexs, 500)
     outs = pmap(_law_case, cexs, chunk=128)
     hist: dict = {}
     for c, o in zip(cexs, outs):
@@ -358,7 +361,7 @@ def residuals(ctx: Ctx, rep: Report, scns: list[dict]) -> None:
     rep.notes["residual_argument_orientation_observed"] = {
         **orient, "meaning": "dp = loss_fn(data, prediction), pd = loss_fn(prediction, data); 'both' = the two coincide. "
                              "The statement does not fix the orientation; either is accepted (advisory)."}
-    if hist["ok"] < 1500:
+    if hist["ok"] + hist["bad"] < 1500:
         raise MachineryError(f"too few residual cases decided: {hist}")
     s = pick[len(pick) // 2]
     rep.sample({"kind": "residual", "sc": s["sc"], "data": _floats(s["data"]), "prediction": _floats(s["pred"]),
@@ -507,9 +510,13 @@ def traces(ctx: Ctx, rep: Report, scns: list[dict]) -> None:
     rep.notes["fits_reported_failure(no report; outside the claim)"] = failed
     rep.notes["residual_evaluations_recorded"] = evals
     rep.notes["reports_identical_to_a_recorded_evaluation"] = byeval
+    rejected = len(trs) - rep.traces
     if first_ok is None:
-        raise MachineryError("no accepted trace with a report: nothing was validated")
-    if failed > len(trs) // 2:
+        if rejected == 0:
+            raise MachineryError("no trace with a report: nothing was validated")
+        rep.notes["corrupted_traces_rejected"] = "skipped: no recorded fit was accepted (the rejections are reported)"
+        return
+    if failed > len(trs) // 2 and rejected == 0:
         raise MachineryError("more than half of the fits reported failure: the family is not exercising the report path")
     rep.sample({"kind": "trace", "events": len(first_ok["ev"]), "start": first_ok["ev"][1],
                 "report": [e for e in first_ok["ev"] if e["k"] == "report"][0]})
@@ -540,12 +547,29 @@ def run(ctx: Ctx) -> int:
         "comparison after an ODE solve: 1e-6 relative on the loss + the loss's sensitivity to a 1e-6 relative / 1e-9 absolute prediction error",
         "convergence of scipy's minimisers is outside the claim",
     ]
+    import time
+
+    stages = {}
+    t0 = time.time()
+
+    def lap(name):
+        nonlocal t0
+        stages[name] = round(time.time() - t0, 1)
+        t0 = time.time()
+
     mc(ctx, rep)
+    lap("model checking")
     loss_values(ctx, rep)
+    lap("loss values")
     law_counterexamples(ctx, rep)
+    lap("law counterexamples")
     scns = scenarios(ctx, rep)
+    lap("scenario generation")
     residuals(ctx, rep, scns)
+    lap("residual replay")
     traces(ctx, rep, scns)
+    lap("recorded fits + trace validation")
+    rep.notes["stage_wall_s"] = stages
     return rep.finish()
 
 
